@@ -45,7 +45,7 @@ def nativePairs : List (Bytes × GoVal) → Option (List (Bytes × Val))
   | (k, x) :: r =>
     match nativeToObject x with
     | none => none
-    | some v => (nativePairs r).map fun ps => mapSet ps k v
+    | some v => (nativePairs r).map fun ps => (k, v) :: ps
 def nativeFields : List (Bytes × Bool × GoVal) → Option (List (Bytes × Val))
   | [] => some []
   | (k, exported, x) :: r =>
@@ -53,7 +53,7 @@ def nativeFields : List (Bytes × Bool × GoVal) → Option (List (Bytes × Val)
     else
       match nativeToObject x with
       | none => none
-      | some v => (nativeFields r).map fun ps => mapSet ps k v
+      | some v => (nativeFields r).map fun ps => (k, v) :: ps
 end
 
 mutual
